@@ -350,6 +350,7 @@ structure DbTable (α : Type) where
   name : Str
   cols : List (Str × Str)            -- (column name, declared type)
   rows : List (List (Val α))
+  deriving Repr, DecidableEq
 
 def dbTable (isMinusOne : α → Bool) (k : Kind) (srcs : List (Src α)) : Option (DbTable α) :=
   match srcs with
@@ -367,5 +368,37 @@ def dbTable (isMinusOne : α → Bool) (k : Kind) (srcs : List (Src α)) : Optio
 def dbTables (isMinusOne : α → Bool) (cat : List (Src α)) : List (DbTable α) :=
   let c := classify cat
   [dbTable isMinusOne .comp c.1, dbTable isMinusOne .isle c.2.1, dbTable isMinusOne .simp c.2.2].filterMap id
+
+/-! ### histories: successive writes to the same name -/
+
+/-- `writeDB` on a file system: an existing database file is removed (`os.remove`) before the new
+    one is created, so nothing of an earlier write survives.  `old` = tables of the file that was
+    there (none: no file). -/
+def writeDBFile (isMinusOne : α → Bool) (old : Option (List (DbTable α))) (cat : List (Src α)) :
+    List (DbTable α) :=
+  let kept : List (DbTable α) := match old with
+    | some _ => []        -- os.remove(filename)
+    | Option.none => []
+  kept ++ dbTables isMinusOne cat
+
+/-- a history of `save_catalog(name.db, ·)` calls on the same name, oldest first -/
+def writeDBHistory (isMinusOne : α → Bool) (old : Option (List (DbTable α))) :
+    List (List (Src α)) → Option (List (DbTable α))
+  | [] => old
+  | cat :: rest => writeDBHistory isMinusOne (some (writeDBFile isMinusOne old cat)) rest
+
+/-- NOT the code: the "update in place" variant (keep the file, `DROP TABLE IF EXISTS` only for the
+    tables that are written).  Kept for the negation witness: a table of a type that no longer
+    occurs survives. -/
+def writeDBInPlace (isMinusOne : α → Bool) (old : Option (List (DbTable α))) (cat : List (Src α)) :
+    List (DbTable α) :=
+  let new := dbTables isMinusOne cat
+  ((old.getD []).filter (fun t => !(new.any (fun n => n.name == t.name)))) ++ new
+
+/-- the per-type files on a file system: each written file replaces the file of that name, every
+    other file is left alone (a `_isle` file of an earlier write is not touched by a write without
+    islands — it is not an output of that write) -/
+def fsWrite (fs : List (Str × Table α)) (outs : List (FileOut α)) : List (Str × Table α) :=
+  outs.foldl (fun fs f => (f.name, f.table) :: fs.filter (fun e => e.1 != f.name)) fs
 
 end Aegean.Model.C18
